@@ -4,7 +4,7 @@
 (* Exact rationals overflow TLC's 32-bit integers for real-valued weights; products are formed      *)
 (* limb-wise so that no intermediate exceeds 2^31.  The harness sets `conf` only when every          *)
 (* magnitude is below 2^14 (so that every result fits) and supplies the comparison tolerance.        *)
-(* Covered: pwl / categorical calibrators (with missing values), hypercube lattices, linear          *)
+(* Covered: pwl / categorical calibrators (with missing values), hypercube and simplex lattices, linear *)
 (* layers, averaging, linear combination, output calibration.                                        *)
 EXTENDS Compose
 Q1 == 32768
@@ -46,11 +46,45 @@ HyperQ(c, kern, pt, v, d) ==
                         IN IF wt = 0 THEN A(a - 1)
                            ELSE MulQ(HyperQ(c, kern, pt, [v EXCEPT ![d] = a], d + 1), wt) + A(a - 1)
        IN A(c.sizes[d] - 1)
+\* simplex interpolation (LatticeInterp.Simplex) in Q15: lower corner, residuals sorted descending (ties: lower index)
+RECURSIVE SortDescQ(_, _)
+SortDescQ(r, S) == IF S = {} THEN <<>>
+                   ELSE LET best == CHOOSE d \in S : \A e \in S : r[e] < r[d] \/ (r[e] = r[d] /\ d <= e)
+                        IN <<best>> \o SortDescQ(r, S \ {best})
+RECURSIVE SimplexTermsQ(_, _, _, _, _, _, _)
+SimplexTermsQ(c, kern, r, order, v, k, prev) ==
+  LET n == Len(order)
+      nextr == IF k < n THEN r[order[k + 1]] ELSE 0
+      term == MulQ(kern[L!Idx(c, v)], prev - nextr)
+  IN IF k = n THEN term
+     ELSE term + SimplexTermsQ(c, kern, r, order, [v EXCEPT ![order[k + 1]] = v[order[k + 1]] + 1], k + 1, nextr)
+SimplexQ(c, kern, pt) ==
+  LET n == Len(c.sizes)
+      xc == [d \in 1..n |-> ClipQ(c, d, pt[d])]
+      lo == [d \in 1..n |-> LET f == xc[d] \div Q1 IN IF f > c.sizes[d] - 2 THEN c.sizes[d] - 2 ELSE IF f < 0 THEN 0 ELSE f]
+      r == [d \in 1..n |-> xc[d] - lo[d] * Q1]
+  IN SimplexTermsQ(c, kern, r, SortDescQ(r, 1..n), lo, 0, Q1)
+\* KroneckerFactoredLattice (KflOps.KflEval) in Q15; w = kernel entries in (i, d, t) order, then the scales, then the bias
+PhiQ(c, i, v0) ==
+  LET v == IF ~c.clip THEN v0 ELSE IF v0 < 0 THEN 0 ELSE IF v0 > (c.L - 1) * Q1 THEN (c.L - 1) * Q1 ELSE v0
+      a == AbsI(i * Q1 - v)
+  IN IF c.L = 2 THEN (IF i = 0 THEN Q1 - v ELSE v) ELSE Q1 - (IF a < Q1 THEN a ELSE Q1)
+KflQ(c, w, pt) ==
+  LET nk == c.L * c.dims * c.terms
+      RECURSIVE SumIQ(_, _, _)
+      SumIQ(d, t, i) == IF i < 0 THEN 0 ELSE MulQ(w[KIdx(c, <<i, d, t>>)], PhiQ(c, i, pt[d])) + SumIQ(d, t, i - 1)
+      RECURSIVE ProdDQ(_, _)
+      ProdDQ(t, d) == IF d = 0 THEN Q1 ELSE MulQ(SumIQ(d, t, c.L - 1), ProdDQ(t, d - 1))
+      RECURSIVE SumTQ(_)
+      SumTQ(t) == IF t = 0 THEN 0 ELSE MulQ(w[nk + t], ProdDQ(t, c.dims)) + SumTQ(t - 1)
+  IN w[nk + c.terms + 1] + SumTQ(c.terms) \div c.terms
 LinQ(k, b, useBias, pt) == (IF useBias THEN b ELSE 0) + SumI([j \in 1..Len(k) |-> MulQ(k[j], pt[j])], Len(k))
 MidQ(m, e, i, x) ==
   LET c == m.mids[i]
       pt == [j \in 1..Len(c.ins) |-> CalQ(m, e, c.ins[j][1], c.ins[j][2], x[c.ins[j][1]])]
-  IN IF c.kind = "lattice" THEN HyperQ(c, VecFx(e.W.mid[i]), pt, [d \in 1..Len(c.sizes) |-> 0], 1)
+  IN IF c.kind = "lattice" /\ c.interp = "simplex" THEN SimplexQ(c, VecFx(e.W.mid[i]), pt)
+     ELSE IF c.kind = "lattice" THEN HyperQ(c, VecFx(e.W.mid[i]), pt, [d \in 1..Len(c.sizes) |-> 0], 1)
+     ELSE IF c.kind = "kfl" THEN KflQ(c, VecFx(e.W.mid[i]), pt)
      ELSE LinQ(VecFx(e.W.mid[i]), VecFx(e.W.midb[i])[1], c.useBias, pt)
 ModelQ(m, e, x) ==
   LET n == Len(m.mids)
